@@ -15,6 +15,8 @@
 //	           encoder / return set not closed                                 (C05)
 //	accept     defective policy accepted, or valid policy rejected            (C07)
 //	panic      Assemble panicked                                               (C07)
+//	determinism the compilation modified the caller's policy, or a second
+//	           compilation / a compilation of a slice-sharing copy differs     (C13)
 package main
 
 import (
@@ -26,6 +28,7 @@ import (
 	"fmt"
 	"math/rand"
 	"os"
+	"reflect"
 	"strconv"
 	"strings"
 
@@ -35,6 +38,7 @@ import (
 
 	"verifharness/bpfvm"
 	"verifharness/polcase"
+	"verifharness/polsnap"
 )
 
 type failure struct {
@@ -293,8 +297,33 @@ func runCase(h *polcase.Header, idx int, cs *polcase.Case, c *polcase.Conc, rng 
 	}
 	seccomp.VerifSetEndian(order)
 	before, _ := json.Marshal(polJSON(&pol))
+	snap0 := polsnap.Take(&pol)
+	shared := pol // a copy of the policy value that shares all slices
 	insts, err, pan := compile(&pol)
 	sum.Compilations++
+	// C13: the caller's policy is untouched, a second compilation of the value and a compilation of a copy that
+	// shares its slices give the same instruction sequence
+	if pan == nil {
+		c13 := func(why string) {
+			f := failure{Scope: h.Scope, CaseIndex: idx, Abstract: cs.Pol, Conc: c.Describe(), Policy: json.RawMessage(before), Kind: "determinism", Why: why}
+			fail(f)
+		}
+		if !reflect.DeepEqual(snap0, polsnap.Take(&pol)) {
+			c13("Policy.Assemble modified the caller's policy (exported fields, backing arrays or capacity tails)")
+		} else {
+			insts2, err2, pan2 := compile(&pol)
+			insts3, err3, pan3 := compile(&shared)
+			if pan2 != nil || pan3 != nil || (err == nil) != (err2 == nil) || (err == nil) != (err3 == nil) {
+				c13("a repeated compilation of an equal policy behaves differently (error / panic)")
+			} else if err == nil && !reflect.DeepEqual(insts, insts2) {
+				c13(fmt.Sprintf("compiling the same policy value a second time gives a different program (%d vs %d instructions)", len(insts), len(insts2)))
+			} else if err == nil && !reflect.DeepEqual(insts, insts3) {
+				c13(fmt.Sprintf("a copy that shares the policy's slices compiles to a different program (%d vs %d instructions)", len(insts), len(insts3)))
+			} else if !reflect.DeepEqual(snap0, polsnap.Take(&pol)) {
+				c13("a repeated compilation modified the caller's policy")
+			}
+		}
+	}
 	base := failure{Scope: h.Scope, CaseIndex: idx, Abstract: cs.Pol, Conc: c.Describe(), Policy: json.RawMessage(before)}
 	if pan != nil {
 		f := base
@@ -313,6 +342,18 @@ func runCase(h *polcase.Header, idx int, cs *polcase.Case, c *polcase.Conc, rng 
 			f.Expected, f.Observed = "error and no program", fmt.Sprintf("program of %d instructions", len(insts))
 		}
 		fail(f)
+		if err == nil {
+			// the program that was returned without error must still be a valid filter (C05), whatever the policy was
+			if raw, rerr := bpf.Assemble(insts); rerr != nil {
+				g := base
+				g.Kind, g.Why = "invalid", "raw encoding of a program returned without error failed: "+rerr.Error()
+				fail(g)
+			} else if kerr := bpfvm.KernelAccepts(raw); kerr != nil && len(raw) <= 4096 {
+				g := base
+				g.Kind, g.Why, g.Program = "invalid", "the seccomp verifier would refuse a program returned without error: "+kerr.Error(), render(raw)
+				fail(g)
+			}
+		}
 		return
 	}
 	if err != nil {
